@@ -975,7 +975,7 @@ impl Property for C10 {
                 _ => Step::ReadBackAsImage {
                     // always with a native fill_contiguous, so that no trait default is involved
                     caps: src.draw(8) as u8 | crate::dev::CAP_CONTIG,
-                    disc: src.draw(4) as u8,
+                    disc: src.draw(crate::dev::N_DISC) as u8,
                 },
             };
             steps.push(s);
